@@ -9,6 +9,7 @@ import (
 	_ "verif/harness/c05"
 	_ "verif/harness/c06"
 	_ "verif/harness/c07"
+	_ "verif/harness/c08"
 
 	"github.com/sdcio/yang-parser/verifrt"
 )
